@@ -23,6 +23,7 @@ fn main() {
         "check" => run(&a),
         "replay" => replay(&a),
         "dump" => dump(&a),
+        "try" => try_files(&a),
         _ => vhcore::machinery_failure("usage: c17 check C17 --tier quick|thorough | replay C17 <file> | dump [thorough]"),
     };
     std::process::exit(code);
@@ -304,6 +305,37 @@ fn dump(a: &vhcore::Args) -> i32 {
     0
 }
 
+/// `c17 try <file.sw>…` — development aid: build each file (debug + release, Mode F) and print the verdict.
+fn try_files(a: &vhcore::Args) -> i32 {
+    let work = vhcore::work_dir("C17try");
+    let mut pool = Pool::new(1, work);
+    pool.timeout = Duration::from_secs(1800);
+    let mode_a = a.rest.iter().any(|s| s == "--mode-a");
+    let files: Vec<&String> = a.rest.iter().filter(|s| !s.starts_with("--")).collect();
+    let reqs: Vec<Request> = files
+        .iter()
+        .enumerate()
+        .map(|(i, f)| {
+            let src = std::fs::read_to_string(f).unwrap_or_else(|e| vhcore::machinery_failure(&format!("{f}: {e}")));
+            req(i, format!("c17_try{i}"), &src, vec![spec("d", false, mode_a), spec("r", true, mode_a)])
+        })
+        .collect();
+    for (f, r) in files.iter().zip(pool.run(&reqs)) {
+        match r {
+            Err(e) => println!("{f}: WORKER {e} => {}", pool_err_shape(&e).key()),
+            Ok(resp) => {
+                for b in &resp.builds {
+                    match judge(b) {
+                        Err((s, d)) => println!("{f} [{}] {} ms: CRASH {} — {}", b.label, b.millis, s.key(), vhcore::truncate(&d, 300)),
+                        Ok(sig) => println!("{f} [{}] {} ms: {sig} {}", b.label, b.millis, b.diagnostics.iter().take(3).map(|d| vhcore::truncate(&d.message, 120)).collect::<Vec<_>>().join(" | ")),
+                    }
+                }
+            }
+        }
+    }
+    0
+}
+
 // ---------------------------------------------------------------------------------------------
 // Ladder
 
@@ -335,7 +367,7 @@ fn ladder_kmax(family: &str, t: Tier) -> usize {
             if deep {
                 6
             } else {
-                8
+                7
             }
         }
         (Tier::Thorough, "array_repeat") | (Tier::Thorough, "str_len") => 20,
@@ -355,7 +387,8 @@ fn run_ladder_family(family: &'static str, idx: usize, scratch: &std::path::Path
     }
     let kmax = ladder_kmax(family, t);
     // the `consts` ladder in the quick tier jumps straight to the interesting sizes
-    let ks: Vec<usize> = if t == Tier::Quick && family == "consts" { vec![4, 8, 12, 13] } else { (0..=kmax).collect() };
+    let ks: Vec<usize> = if t == Tier::Quick && family == "consts" { vec![10, 11, 12, 13] } else { (0..=kmax).collect() };
+    let mut prev_ms: u64 = 0;
     for k in ks {
         let n = 1usize << k;
         let src = mutgen::ladder_src(family, n);
@@ -366,13 +399,18 @@ fn run_ladder_family(family: &'static str, idx: usize, scratch: &std::path::Path
             let r = req(k, format!("c17_l{idx}_{k}_{}", release as u8), &src, vec![spec(if release { "r" } else { "d" }, release, false)]);
             let t0 = Instant::now();
             res.builds += 1;
-            match drv.request(&r, timeout) {
+            let rung_timeout = timeout.max(Duration::from_millis(prev_ms.saturating_mul(40))).min(Duration::from_secs(2400));
+            match drv.request(&r, rung_timeout) {
                 Err(reason) => {
                     let shape = pool_err_shape(&reason);
                     rung.outcome = format!("{} ({})", shape.key(), if release { "release" } else { "debug" });
-                    res.failures.push((case.clone(), release, shape, format!("{reason} after {:.1}s", t0.elapsed().as_secs_f64())));
+                    if shape == Shape::Timeout && prev_ms.saturating_mul(16) >= rung_timeout.as_millis() as u64 {
+                        // doubling the size from a rung that already took > 1/16 of the limit: slow, not a hang
+                        res.caps.push(format!("ladder {family}: n={n} exceeded {rung_timeout:?} (previous rung {prev_ms} ms); not climbed further"));
+                    } else {
+                        res.failures.push((case.clone(), release, shape, format!("{reason} after {:.1}s (previous rung: {prev_ms} ms)", t0.elapsed().as_secs_f64())));
+                    }
                     stop = true;
-                    // fresh worker for a possible release build of the same rung is pointless: stop here
                     break;
                 }
                 Ok(resp) => {
@@ -406,6 +444,7 @@ fn run_ladder_family(family: &'static str, idx: usize, scratch: &std::path::Path
                 }
             }
         }
+        prev_ms = rung.debug_ms.max(rung.release_ms);
         res.rungs.push(rung);
         if stop {
             break;
@@ -510,8 +549,10 @@ fn run(a: &vhcore::Args) -> i32 {
     // threshold (120 s idle) is scaled by the slowdown measured on this run's Mode A builds.
     cold_ms.sort();
     let cold_median = cold_ms.get(cold_ms.len() / 2).copied().unwrap_or(4000);
-    let slowdown = (cold_median as f64 / 4000.0).clamp(1.0, 5.0);
-    let hang_s = (120.0 * slowdown) as u64;
+    let slowdown = (cold_median as f64 / 4000.0).clamp(1.0, 40.0);
+    // every fresh worker type-checks std first (and again after a caught panic), so the threshold
+    // leaves room for that: 120 s + 3 cold builds (= 132 s on an idle machine)
+    let hang_s = 120 + 3 * cold_median / 1000;
     pool.timeout = Duration::from_secs(hang_s);
     eprintln!(
         "[c17] phase A done: {} bases, {self_checked} Mode F = Mode A comparisons, cold build median {cold_median} ms, hang threshold {hang_s} s, {:.0}s",
@@ -638,6 +679,7 @@ fn run(a: &vhcore::Args) -> i32 {
             "last_debug_ms": last.map(|r| r.debug_ms).unwrap_or(0),
             "last_release_ms": last.map(|r| r.release_ms).unwrap_or(0),
             "last_src_bytes": last.map(|r| r.src_len).unwrap_or(0),
+            "n_debug_ms_release_ms": lr.rungs.iter().map(|r| json!([r.n, r.debug_ms, r.release_ms])).collect::<Vec<_>>(),
         }));
         for r in &lr.rungs {
             outcomes.add(&format!("ladder:{}:{}:{}", r.family, r.k, r.outcome));
